@@ -26,6 +26,18 @@ def gen_oid(rng, min_arcs=2, max_arcs=14, first=None):
     return (a0, a1) + tuple(gen_arc(rng) for _ in range(n - 2))
 
 
+def spell(rng, arcs, p=0.5):
+    """Dotted text for arcs; with probability p one that the parser also accepts but that is not canonical
+    (zero-padded arcs as in '1.3.6.1.2.1.2.2.1.02', an explicit '+'): results must not echo the caller's spelling."""
+    if rng.random() >= p:
+        return ".".join(str(a) for a in arcs)
+    t = [str(a) for a in arcs]
+    for _ in range(rng.choice([1, 1, 2])):
+        i = rng.randrange(len(t))
+        t[i] = rng.choice(["0", "00", "+"]) + t[i].lstrip("+")
+    return ".".join(t)
+
+
 def gen_oid_wide(rng, max_arcs=10):
     """A valid X.690 OID under joint-iso-itu-t(2) whose second arc is >= 40 (8.19.4: the first sub-identifier is
     40*2 + second and takes several octets from 2.48 on).  An agent may send these; the text parser need not accept them."""
@@ -140,6 +152,28 @@ KINDS = ["Int", "Counter32", "Gauge32", "TimeTicks", "UInteger32", "Counter64", 
          "ObjectDescriptor", "IpAddress", "Oid", "Bool", "Real", "Null"]
 
 
+def gen_wrapped(rng):
+    """Octets that look like BER themselves - what Opaque is for (RFC 2578 7.1.9), and what net-snmp puts into it:
+    9f 78 04 <float>, 9f 79 08 <double>, 9f 7a <int64>, 9f 7b <uint64>, nested Opaque / SEQUENCE / INTEGER - complete,
+    cut short, or with a length octet that promises more than is there.  The client hands the octets over untouched."""
+    head, n = rng.choice([(b"\x9f\x78", 4), (b"\x9f\x79", 8), (b"\x9f\x7a", 8), (b"\x9f\x7b", 8), (b"\x9f\x7a", 3), (b"\x44", 11),
+                          (b"\x30", 6), (b"\x02", 4), (b"\x04", 20), (b"\x06", 7), (b"\x9f\x78", 8), (b"\x9f\x79", 4)])
+    body = bytes(rng.randrange(256) for _ in range(n))
+    full = head + bytes([n]) + body
+    k = rng.randrange(6)
+    if k == 0:
+        return full
+    if k == 1:
+        return full[:rng.randrange(len(head), len(full))]          # cut short
+    if k == 2:
+        return full + bytes(rng.randrange(256) for _ in range(rng.choice([1, 2, 8])))   # trailing octets
+    if k == 3:
+        return head + bytes([n + rng.choice([1, 4, 100])]) + body   # length promises more
+    if k == 4:
+        return head + bytes([0x81, n]) + body                       # long-form length
+    return head + bytes([rng.choice([0, 0x80, 0x84, 0xff])]) + body[:rng.randrange(0, n + 1)]
+
+
 def gen_value(rng, kinds=None, form_p=0.2):
     """-> dict(kind, tlv, py, cls). py is the Python value the client must deliver."""
     kind = rng.choice(kinds or KINDS)
@@ -159,6 +193,8 @@ def gen_value(rng, kinds=None, form_p=0.2):
         cls = "%s:%d:%s" % (kind, len(B.uint_content(v, lz)), lz)
     elif kind in ("OctetString", "Opaque", "ObjectDescriptor"):
         b = gen_bytes(rng)
+        if rng.random() < 0.35:
+            b = gen_wrapped(rng)
         tag = {"OctetString": B.OCTETS, "Opaque": B.OPAQUE, "ObjectDescriptor": B.ODESC}[kind]
         if form is not None and len(b) >= 1 << (8 * form):
             form = None
